@@ -653,8 +653,25 @@ def r14l(rep):
                                            and isinstance(repo.try_fold(x, st, None), str)):
             return 'constant'
         return 'unknown'
+    def choice_srcs(e, seen):
+        """Sources of ``e``, a choice between values (``a or b`` / ``a and b`` evaluates to one of its operands, ``x if c else y``
+        to one of its arms) taken as the arms it chooses between, each followed like a plain source."""
+        out = []
+        for x in C._srcs(bfr, e):
+            if id(x) in seen:
+                continue
+            seen[id(x)] = x          # (kept alive: an id is not reused while this runs)
+            if isinstance(x, ast.BoolOp):
+                for v in x.values:
+                    out.extend(choice_srcs(v, seen))
+            elif isinstance(x, ast.IfExp):
+                out.extend(choice_srcs(x.body, seen))
+                out.extend(choice_srcs(x.orelse, seen))
+            else:
+                out.append(x)
+        return out
     for h in hdr:
-        srcs = C._srcs(bfr, h.value)
+        srcs = choice_srcs(h.value, {})
         kinds = [(kind_of(x), x) for x in srcs]
         unknown = [x for k, x in kinds if k in ('unknown', 'stmt')]
         fixed = [x for k, x in kinds if k in ('constant', 'other-param')]
